@@ -646,7 +646,7 @@ func (g *G1) pathExpr(d int) string {
 	case 7:
 		return "limit(" + g.oneOf("1", "2", "0") + "; " + g.pathExpr(d-1) + ")"
 	case 8:
-		return g.oneOf("..", "recurse", "recurse(.[]?)", "recurse(.a?)", ".[]?", "recurse(.[]?; . != null)")
+		return g.oneOf("..", "recurse", "recurse(.[]?)", "recurse(.a?; . != null)", ".[]?", "recurse(.[]?; . != null)")
 	case 9:
 		return "getpath(" + g.oneOf(`["a"]`, `[0]`, `["a","b"]`, `[1,0]`, `[]`, `["a",0]`) + ")"
 	case 10:
@@ -659,8 +659,6 @@ func (g *G1) pathExpr(d int) string {
 		s := paren(g.expr(kAny, 1) + " as " + v + " | " + g.pathExpr(d-1))
 		g.vars = g.vars[:len(g.vars)-1]
 		return s
-	case 13:
-		return "last(" + g.pathExpr(d-1) + ")"
 	}
 	return g.pathAtom()
 }
